@@ -693,6 +693,7 @@ static int addRequest(KSI_AsyncClient *c, KSI_AsyncHandle *handle, void *req,
 	KSI_Header *hdr = NULL;
 	KSI_AsyncHandle *confHandle = NULL;
 	void *tmpReq = NULL;
+	bool cached = false;
 
 	if (c == NULL || handle == NULL || req == NULL) {
 		res = KSI_INVALID_ARGUMENT;
@@ -776,6 +777,7 @@ static int addRequest(KSI_AsyncClient *c, KSI_AsyncHandle *handle, void *req,
 	if (hasRequest) {
 		c->reqCache[id] = handle;
 		c->pending++;
+		cached = true;
 	}
 
 	/* Cache the config request separatelly, as the response can not be assigned to any request in the common cache. */
@@ -818,6 +820,11 @@ static int addRequest(KSI_AsyncClient *c, KSI_AsyncHandle *handle, void *req,
 
 	res = KSI_OK;
 cleanup:
+	if (res != KSI_OK && cached) {
+		/* The request is refused and stays with the caller: the cache must not keep it. */
+		c->reqCache[id] = NULL;
+		c->pending--;
+	}
 	req_free(tmpReq);
 	KSI_AsyncHandle_free(confHandle);
 	KSI_Header_free(hdr);
